@@ -111,6 +111,27 @@ func c18Snippet(r *rand.Rand) string {
 
 func (s *c18Session) add(st c18Step) { s.steps = append(s.steps, st) }
 
+// c18Reframe rewrites the header of a well-formed frame in another legal spelling (header names are case-insensitive,
+// further header fields may be present, in any order).
+func c18Reframe(r *rand.Rand, frame []byte) ([]byte, string) {
+	i := strings.Index(string(frame), "\r\n\r\n")
+	body := frame[i+4:]
+	n := len(body)
+	switch r.Intn(6) {
+	case 0:
+		return append([]byte(fmt.Sprintf("content-length: %d\r\n\r\n", n)), body...), "lower-case-header"
+	case 1:
+		return append([]byte(fmt.Sprintf("CONTENT-LENGTH: %d\r\n\r\n", n)), body...), "upper-case-header"
+	case 2:
+		return append([]byte(fmt.Sprintf("Content-Type: application/vscode-jsonrpc; charset=utf-8\r\nContent-Length: %d\r\n\r\n", n)), body...), "content-type-first"
+	case 3:
+		return append([]byte(fmt.Sprintf("Content-Length: %d\r\nContent-Type: application/vscode-jsonrpc; charset=utf-8\r\n\r\n", n)), body...), "content-type-after"
+	case 4:
+		return append([]byte(fmt.Sprintf("Content-Length:%d\r\n\r\n", n)), body...), "no-space-after-colon"
+	}
+	return frame, ""
+}
+
 func (s *c18Session) open(uri, text string, version int) {
 	s.add(c18Step{Kind: "notification", Label: "textDocument/didOpen", Bytes: lspNotif("textDocument/didOpen", map[string]interface{}{"textDocument": map[string]interface{}{"uri": uri, "languageId": "sql", "version": version, "text": text}})})
 	s.docs[uri] = &c18Doc{text, version}
@@ -125,6 +146,7 @@ type c18Change struct {
 	full           bool
 	sl, sc, el, ec int
 	text           string
+	rl             int // 0: no rangeLength member, 1: consistent value, 2: inconsistent value
 }
 
 func (s *c18Session) change(uri string, version int, chs []c18Change, label string) {
@@ -133,7 +155,28 @@ func (s *c18Session) change(uri string, version int, chs []c18Change, label stri
 		if ch.full {
 			arr = append(arr, map[string]interface{}{"text": ch.text})
 		} else {
-			arr = append(arr, map[string]interface{}{"range": map[string]interface{}{"start": map[string]int{"line": ch.sl, "character": ch.sc}, "end": map[string]int{"line": ch.el, "character": ch.ec}}, "text": ch.text})
+			ev := map[string]interface{}{"range": map[string]interface{}{"start": map[string]int{"line": ch.sl, "character": ch.sc}, "end": map[string]int{"line": ch.el, "character": ch.ec}}, "text": ch.text}
+			// the deprecated rangeLength member (UTF-16 units of the replaced text), as many editors still send it; the
+			// range is what counts
+			if cur, ok := s.docs[uri]; ok && ch.rl != 0 {
+				so, eo := lspOffset(cur.text, ch.sl, ch.sc), lspOffset(cur.text, ch.el, ch.ec)
+				if eo < so {
+					so, eo = eo, so
+				}
+				n := 0
+				for _, r := range cur.text[so:eo] {
+					if r >= 0x10000 {
+						n += 2
+					} else {
+						n++
+					}
+				}
+				if ch.rl == 2 {
+					n += 3 // a value that disagrees with the range
+				}
+				ev["rangeLength"] = n
+			}
+			arr = append(arr, ev)
 		}
 	}
 	s.add(c18Step{Kind: "notification", Label: label, Bytes: lspNotif("textDocument/didChange", map[string]interface{}{"textDocument": map[string]interface{}{"uri": uri, "version": version}, "contentChanges": arr})})
@@ -175,7 +218,7 @@ func c18RandomChange(r *rand.Rand, text string) (c18Change, string) {
 	if r.Intn(4) == 0 {
 		l2, c2 = l1, c1 // pure insertion
 	}
-	return c18Change{sl: l1, sc: c1, el: l2, ec: c2, text: c18Snippet(r)}, label
+	return c18Change{sl: l1, sc: c1, el: l2, ec: c2, text: c18Snippet(r), rl: []int{0, 1, 1, 2}[r.Intn(4)]}, label
 }
 
 // ---- oracles -------------------------------------------------------------------------
@@ -406,7 +449,7 @@ func c18Request(r *rand.Rand, idn *int, docs map[string]*c18Doc) c18Step {
 	case "textDocument/hover", "textDocument/completion", "textDocument/signatureHelp", "textDocument/definition":
 		params = map[string]interface{}{"textDocument": td, "position": map[string]int{"line": l, "character": c}}
 	case "textDocument/formatting":
-		params = map[string]interface{}{"textDocument": td, "options": map[string]interface{}{"tabSize": r.Intn(9) - 1, "insertSpaces": r.Intn(2) == 0, "insertFinalNewline": r.Intn(2) == 0}}
+		params = map[string]interface{}{"textDocument": td, "options": map[string]interface{}{"tabSize": []int{r.Intn(9) - 1, 4, 1 << 31, 1 << 40, 1<<62 + 1, 100000}[r.Intn(6)], "insertSpaces": r.Intn(3) != 0, "insertFinalNewline": r.Intn(2) == 0}}
 	case "textDocument/documentSymbol":
 		params = map[string]interface{}{"textDocument": td}
 	case "textDocument/codeAction":
@@ -515,7 +558,15 @@ func c18Child(a *ChildArgs) {
 			for k := 0; k < n; k++ {
 				switch c := r.Intn(20); {
 				case c < 8:
-					s.add(c18Request(r, &idn, s.docs))
+					st := c18Request(r, &idn, s.docs)
+					if r.Intn(4) == 0 {
+						var how string
+						st.Bytes, how = c18Reframe(r, st.Bytes)
+						if how != "" {
+							st.Label += "@" + how
+						}
+					}
+					s.add(st)
 				case c < 11:
 					uri := c18URIs[r.Intn(len(c18URIs))]
 					ver++
